@@ -664,11 +664,20 @@ where
                 if GenericPurl::<T>::deserialize(SeqDeserializer::<_, VErr>::new(vec![text.clone()].into_iter())).is_ok() {
                     accepted.push("sequence of one string");
                 }
+                if GenericPurl::<T>::deserialize(SeqDeserializer::<_, VErr>::new(text.bytes())).is_ok() {
+                    accepted.push("sequence of the text's bytes");
+                }
+                if GenericPurl::<T>::deserialize(SeqDeserializer::<_, VErr>::new(text.chars())).is_ok() {
+                    accepted.push("sequence of the text's characters");
+                }
+                if GenericPurl::<T>::deserialize(serde::de::value::CharDeserializer::<VErr>::new('p')).is_ok() {
+                    accepted.push("char");
+                }
                 if !accepted.is_empty() {
                     acc.violate(Violation { prop: "C16", kind: "non-string-accepted".into(), case: case.clone(), detail: format!("a value that is not a string ({}) carrying the text {:?} deserialises to a PURL", accepted.join(", "), text) });
                 }
             }
-            for v in [serde_json::json!(null), serde_json::json!(true), serde_json::json!(0), serde_json::json!(1.5), serde_json::json!([text.clone()]), serde_json::json!({"purl": text.clone()}), serde_json::json!([[text.clone()]]), serde_json::json!({"a": {"b": text.clone()}})] {
+            for v in [serde_json::json!(text.bytes().collect::<Vec<u8>>()), serde_json::json!(text.chars().map(|c| c.to_string()).collect::<Vec<String>>()), serde_json::json!({text.clone(): null}), serde_json::json!(null), serde_json::json!(true), serde_json::json!(0), serde_json::json!(1.5), serde_json::json!([text.clone()]), serde_json::json!({"purl": text.clone()}), serde_json::json!([[text.clone()]]), serde_json::json!({"a": {"b": text.clone()}})] {
                 acc.calls += 1;
                 if let Ok(q) = serde_json::from_value::<GenericPurl<T>>(v.clone()) {
                     acc.violate(Violation { prop: "C16", kind: "non-string-accepted".into(), case: case.clone(), detail: format!("JSON value {v} deserialises to {:?}", observe(&q)) });
